@@ -243,6 +243,7 @@ def run(res: Results, idx: Index, tier: str) -> None:
             exprs = _closure_exprs(df, elts[0])
             ok = any("trip_count" in str_consts_in(e) for e in exprs)
             res.add("R-C06d", "OK" if ok else "VIOLATION", f"{LAX}fori_loop.py:{call.lineno}", key, "trip count derives from params['trip_count']" if ok else f"the Loop trip count `{src(elts[0])}` does not derive from the trip_count parameter", flow.qualname)
+    rule_e(res, idx)
     # scan
     for mname in ("_lower_without_scan_inputs", "_lower_with_scan_inputs"):
         f = sc.methods.get(mname)
@@ -304,3 +305,74 @@ def run(res: Results, idx: Index, tier: str) -> None:
             res.ok("R-C06d", f"{LAX}scan.py:{getattr(call, 'lineno', f.node.lineno)}", key, f"every definition of the trip count that reaches the Loop ({n_defs}) derives from `length` / the scanned operand's leading extent", f.qualname)
         else:
             res.violation("R-C06d", f"{LAX}scan.py:{getattr(call, 'lineno', f.node.lineno)}", key, f"a definition of the Loop trip count that reaches the node derives neither from `length` nor from the scanned operand's extent: {'; '.join(bad) or src(elts[0])} — the loop then runs a number of iterations unrelated to the scan length", f.qualname)
+
+
+# ---------------------------------------------------------------------------------------------- R-C06e
+def rule_e(res: Results, idx: Index) -> None:
+    """fori_loop(lower, upper, …): the ONNX Loop counts 0..trip_count-1, so (1) the substitute binds
+    trip_count = upper - lower and passes `lower` on, and (2) the body graph binds the body's index variable to the Loop
+    iteration number plus `lower` whenever lower != 0."""
+    res.rule("R-C06e", "fori_loop: trip count is upper - lower, the bound `lower` is the caller's, and the body index is iteration + lower", floor=3)
+    rel = f"{LAX}fori_loop.py"
+    m = idx.module(rel)
+    bind_fn = next((f for f in m.funcs.values() if f.name == "_fori_loop_binding"), None)
+    body_fn = m.funcs.get("_build_body_graph")
+    if bind_fn is None or body_fn is None:
+        raise AnalysisError("fori_loop: _fori_loop_binding / _build_body_graph not found")
+    du = defuse(bind_fn.node)
+    # (1) trip_count = f(upper) - f(lower)
+    key = f"{rel}::{bind_fn.qualname}::trip-count-difference"
+    subs = [d for d in du.defs.get("trip_count", []) if isinstance(d.value, ast.BinOp)]
+    ok = False
+    why = "no `trip_count = … - …` definition"
+    for d in subs:
+        if isinstance(d.value.op, ast.Sub):
+            l, r = du.closure(names_in(d.value.left)) | names_in(d.value.left), du.closure(names_in(d.value.right)) | names_in(d.value.right)
+            if "upper" in l and "lower" not in l and "lower" in r and "upper" not in r:
+                ok = True
+            else:
+                why = f"`{src(d.value, 60)}` is not upper - lower"
+        else:
+            why = f"`{src(d.value, 60)}` is not a difference"
+    res.add("R-C06e", "OK" if ok else "VIOLATION", f"{rel}:{(subs[0].stmt.lineno if subs else bind_fn.node.lineno)}", key, "trip_count = upper - lower" if ok else f"the number of iterations bound on the primitive is wrong: {why}", bind_fn.qualname)
+    # (2) bind(..., trip_count=trip_count, lower=<lower>)
+    binds = [c for c in walk_no_nested(bind_fn.node) if isinstance(c, ast.Call) and isinstance(c.func, ast.Attribute) and c.func.attr == "bind"]
+    key = f"{rel}::{bind_fn.qualname}::bind-lower"
+    if not binds:
+        res.unresolved("R-C06e", f"{rel}:{bind_fn.node.lineno}", key, "no bind call", bind_fn.qualname)
+    else:
+        b = binds[0]
+        kw = {k.arg: k.value for k in b.keywords}
+        good = "lower" in kw and "lower" in (du.closure(names_in(kw["lower"])) | names_in(kw["lower"])) and "upper" not in names_in(kw["lower"]) \
+            and "trip_count" in kw and "trip_count" in names_in(kw["trip_count"])
+        res.add("R-C06e", "OK" if good else "VIOLATION", f"{rel}:{b.lineno}", key, "bind passes trip_count and the caller's lower" if good else "the primitive is not bound with trip_count=trip_count and lower=<the caller's lower>", bind_fn.qualname)
+    # (3) body index = iteration + lower when lower != 0
+    key = f"{rel}::_build_body_graph::index-offset"
+    g = cfg_of(body_fn.node)
+    dub = defuse(body_fn.node)
+    guards = [st for st in walk_no_nested(body_fn.node) if isinstance(st, ast.If) and isinstance(st.test, ast.Compare) and names_in(st.test) == {"lower"} and isinstance(st.test.ops[0], ast.NotEq)
+              and isinstance(st.test.comparators[0], ast.Constant) and st.test.comparators[0].value == 0]
+    binds_iter = [c for c in walk_no_nested(body_fn.node) if isinstance(c, ast.Call) and (call_name(c) or "").endswith("bind_value_for_var") and c.args and "iter_var" in names_in(c.args[0])]
+    adds = [st for st in walk_no_nested(body_fn.node) if isinstance(st, ast.Assign) and isinstance(st.value, ast.Call) and (call_name(st.value) or "").endswith(".Add")]
+    good_add = None
+    for a in adds:
+        args = a.value.args
+        if len(args) >= 2:
+            t0 = dub.closure(names_in(args[0])) | names_in(args[0])
+            t1 = dub.closure(names_in(args[1])) | names_in(args[1])
+            if ({"iter_input"} & (t0 | t1)) and ("lower" in (t0 | t1)):
+                good_add = a
+    if not guards or not binds_iter or good_add is None:
+        res.violation("R-C06e", f"{rel}:{body_fn.node.lineno}", key, "the body graph does not add `lower` to the Loop iteration number under `if lower != 0` before binding the body's index variable: fori_loop(lower>0, …) bodies see indices starting at 0", body_fn.qualname)
+    else:
+        t_edges = [(n, "T") for gd in guards for n in g.nodes_of(gd)]
+        bind_stmt = enclosing_stmt(binds_iter[0])
+        # on the T edge the Add must be passed, and the bound value must be (derived from) the Add's target
+        passed = g.must_pass_nodes(g.nodes_of(bind_stmt), g.nodes_of(good_add)) or not (g.reachable([y for n, lab in t_edges for y, l2 in g.succ[n] if l2 == "T"], removed_nodes=set(g.nodes_of(good_add))) & set(g.nodes_of(bind_stmt)))
+        tgt = good_add.targets[0].id if isinstance(good_add.targets[0], ast.Name) else None
+        bound = binds_iter[0].args[1] if len(binds_iter[0].args) > 1 else None
+        flows = tgt is not None and bound is not None and tgt in (dub.closure(names_in(bound)) | names_in(bound))
+        if passed and flows:
+            res.ok("R-C06e", f"{rel}:{good_add.lineno}", key, "iteration + lower is computed on the lower != 0 branch and is what the body's index variable is bound to", body_fn.qualname)
+        else:
+            res.violation("R-C06e", f"{rel}:{good_add.lineno}", key, "the offset `iteration + lower` is not on every lower != 0 path to the binding of the body's index variable (or is not the bound value)", body_fn.qualname)
